@@ -5,7 +5,7 @@ import core
 from core import hx
 from runner import Case
 
-THEOREMS = ["C14.prune_order_attrs", "C14.prune_nodes", "C14.pruneKeep_prefix_closed", "C14.addrs_valid", "C14.subtree_eq",
+THEOREMS = ["C14.prune_order_attrs", "C14.prune_nodes", "C14.prune_order", "C14.pruneKeep_prefix_closed", "C14.addrs_valid", "C14.subtree_eq",
             "C14.subtree_self", "C14.missing_path_rej", "C14.missing_subtree_rej", "C14.prune_no_args_rej"]
 RULE = ("trees: all ordered shapes up to N nodes and random shapes (<=30 nodes, depth<=10, fan-out<=8) labelled from "
         "suffix-related alphabets (a, b, ab, ba, bc, ...), sibling names distinct; 1-3 non-nested target nodes, each "
@@ -525,7 +525,7 @@ NOT_READY = False
 LEVEL_TEXT = ("machine-checked (Lean 4), for all trees, all located pairwise non-nested target sets, exact on/off and every max_depth: "
               "prune_tree as written (find_path, ancestor set, detach loop, depth cut through the level groups with `del children`) "
               "returns the input tree restricted to the nodes on a route to a target or - unless exact - below one, and of depth <= "
-              "max_depth; sibling order, names and attributes are those of the input (prune_order_attrs, prune_nodes); get_subtree "
+              "max_depth; sibling order, names and attributes are those of the input (prune_order_attrs, prune_nodes, prune_order); get_subtree "
               "returns the addressed node with its descendants to the relative depth as a new root (subtree_eq, subtree_self); a path "
               "matching no node raises NotFoundError / ValueError, no path and no depth raises ValueError (missing_path_rej, "
               "missing_subtree_rej, prune_no_args_rej). Which node a textual path designates is find_path's string-suffix semantics "
